@@ -734,7 +734,11 @@ BACKS = [(0, 0), (0, 1000), (1000, 0), (1000, 1000)]
 #   coefficients off by one); the crate's own test passes only for the values its seed 42 happens to draw.
 #   f64 (1e5, 1e4, L = 1e5): 1 of 464 random probes wrong (`P f64 10 8 1 0 0 1000 0 0 0 903461 300`: lengths 99999 x
 #   100000, a in [99000 ..= 100000], b = [10000; 100000]: 1 of 199998 coefficients off by one, index 91603).
-MARGINAL_CELLS = {("f64", 5000000, 500000), ("f64", 100000, 10000)}
+#   f64 (5e4, 5e3, L = 3e5): 1 of ~300 probes wrong (`P f64 9 7 0 0 0 0 1000 0 0 7326 300`: lengths 300000 x 300000,
+#   a = [50000; 300000], b in [4000 ..= 5000]: 2 of 599999 coefficients off by one, first at index 288619).
+# All three are cells whose TRANSPOSED cell claims less; the fourth such cell (1e7, 5e6, L = 10) never failed with
+# non-negative operands (0 of 432 + the gating probes).
+MARGINAL_CELLS = {("f64", 5000000, 500000), ("f64", 100000, 10000), ("f64", 50000, 5000)}
 # The property promises the same for negative coefficients, so the sign modes 1-5 GATE on every frontier cell - except
 # the (cell, sign mode) combinations that already fail on the reviewed tree.  Measured on /repo 00e0730 (all six sign
 # modes, every frontier cell, six length modes, four value windows, three routes; 432-1056 random probes per combination
@@ -743,7 +747,8 @@ MARGINAL_CELLS = {("f64", 5000000, 500000), ("f64", 100000, 10000)}
 #   f64 (5e6, 5e5, L = 100): alternating 27/432, all negative 7/432, a negated 100/432, b negated 103/432 (non-negative 11/432)
 #   f64 (1e5, 1e4, L = 1e5): alternating 2/528, a negated 74/432, b negated 67/432 (non-negative 1/528; all negative is
 #                            bit for bit the non-negative computation: -z transforms to -Z and the product is the same)
-#   f64 (5e4, 5e3, L = 3e5): alternating 1/336, a negated 13/96, b negated 12/96 (non-negative 0/240)
+#   f64 (5e4, 5e3, L = 3e5): alternating 1/336, a negated 13/96, b negated 12/96 (non-negative 0/240 there, 1 wrong among
+#                            the thorough tier's own probes; all negative = the non-negative computation)
 #   f64 (1e7, 5e6, L = 10):  a negated / b negated 12/432 each, among them the constant vectors themselves
 #                            (multiply([-1e7; 10], [5e6; 10]) is off by one at coefficient 10); the other modes 0/432
 # and random signs never failed anywhere (0 of 19864).  Every other cell: 0 failures in every mode.  The listed
@@ -752,7 +757,7 @@ MARGINAL_CELLS = {("f64", 5000000, 500000), ("f64", 100000, 10000)}
 SIGN_MARGINAL = {
     ("f64", 5000000, 500000): {1, 3, 4, 5},
     ("f64", 100000, 10000): {1, 3, 4, 5},
-    ("f64", 50000, 5000): {1, 4, 5},
+    ("f64", 50000, 5000): {1, 3, 4, 5},
     ("f64", 10000000, 5000000): {4, 5},
 }
 # executor lines that fail on the reviewed tree: run on every run, so that a listed finding is re-confirmed (and
@@ -760,6 +765,7 @@ SIGN_MARGINAL = {
 WITNESS = {
     "published-cell-5000000-500000": ["P f64 13 11 0 0 0 1000 0 0 0 14836 300"],
     "published-cell-100000-10000": ["P f64 10 8 1 0 0 1000 0 0 0 903461 300"],
+    "published-cell-50000-5000": ["P f64 9 7 0 0 0 0 1000 0 0 7326 300"],
     "published-cell-5000000-500000-signs": ["P f64 13 11 0 0 4 0 1000 0 0 912115 300"],
     "published-cell-100000-10000-signs": ["P f64 10 8 0 0 4 0 1000 0 0 5001750 300"],
     "published-cell-50000-5000-signs": ["P f64 9 7 1 0 4 0 0 0 1 6001753 300"],
@@ -1178,7 +1184,7 @@ MANIFEST = {
             "non-negative operands AND five sign modes that all gate, every coefficient negative among them). Known finding unequal-lengths: the literal "
             "envelope max^2*min(len) <= 1e12 is violated for very unequal lengths; re-confirmed on every run. Findings inside the published "
             "table on the reviewed tree (statistics, announced only when listed in known_findings.txt, witnesses re-run on every run): "
-            "two cells fail inside their literal non-negative claim (5e6 x 5e5, 1e5 x 1e4) and the four cells whose transposed cell "
+            "three cells fail inside their literal non-negative claim (5e6 x 5e5, 1e5 x 1e4, 5e4 x 5e3) and the four cells whose transposed cell "
             "claims less fail once one operand is negated (e.g. multiply([-1e7; 10], [5e6; 10]), multiply([-50000; 299999], [5000; 300000])).",
     "level_note": "proof, partial: shape, history independence (bit-exact, all instances) and algebraic exactness are proved for the "
                   "model; the rounding envelope is search only. Trusted: Coq kernel + vm_compute (primitive floats only in executed "
